@@ -1,4 +1,5 @@
 import Driver.Vectored
+import Driver.Sinks
 import Driver.EmfSpec
 /-!
 `driver <engine>`: reads one request per line on stdin, prints one reply per line.
@@ -8,6 +9,7 @@ whole operation sequence in one line), so a disagreement replays from the line a
 
 def engines : List (String × (String → String)) := [
   ("vectored", Driver.Vectored.handle),
+  ("sinks", Driver.Sinks.handle),
   ("emfspec", Driver.EmfSpec.handle)
 ]
 
